@@ -662,4 +662,35 @@ def c19(ctx):
                       'watermark, ExactCover, plain-loader verification); then edits + `gemato update -p` judged by TraceUpdate.tla.')
 
 
-CHECKS = {'C19': c19, 'C17': c17, 'C06': c06, 'C16': c16, 'C15': c15, 'C14': c14, 'C05': c05, 'C11': c11, 'C03': c03, 'C10': c10, 'C12': c12, 'C13': c13, 'C01': c01, 'C02': c02, 'C04': c04, 'C07': c07, 'C08': c08, 'C09': c09}
+def c20(ctx):
+    from . import drv_gen as d
+    thorough = ctx.tier == 'thorough'
+    n = 3000 if thorough else 160
+    out = core.pool_map(d.one_case, [(ctx.seed, i, {'big': i % 3 == 0}) for i in range(n)], chunksize=1)
+    recs = [r for o in out for r in o]
+    metas = [r.pop('meta') for r in recs]
+    for k in range(0, len(recs), 1500):
+        ctx.judge('TraceGen', 'TraceGen.cfg', recs[k:k + 1500], metas[k:k + 1500], {'module': 'TraceGen'},
+                  sig=lambda r: hash((r['script'].split(':')[0], len(r['s1']['nodes']), len(r['s1']['mfs']),
+                                      json_key([len(m['entries']) for m in r['s1']['mfs']]), r['verify1'], r['verify2'])))
+    by = {}
+    for r in recs:
+        k = r['script'].split(':')[0]
+        by[k] = by.get(k, 0) + 1
+    ctx.extra['runs'] = by
+    ctx.sample({'script': recs[0]['script'], 'manifests': [m['p'] for m in recs[0]['s1']['mfs']][:10],
+                'verify': recs[0]['verify1']})
+    ctx.assumptions += ['scripts run as sub-processes of the same interpreter, unsigned',
+                        'single directories are updated with the plain profile and the scripts\' hash set (the ebuild profile '
+                        'places Manifests relative to the repository root); timestamp files are removed for standalone runs',
+                        'this property has no Layer-A model of its own: the scripts are a second program judged with the same '
+                        'Layer-P operators (Glep74!MatchesStrict, UpdateRef!ExactCover clauses)']
+    return ctx.finish(rule='generated ::gentoo-shaped repositories with portable names (categories from profiles/categories, packages '
+                      'with ebuilds / metadata.xml / nested files/, pre-existing package Manifests carrying DIST entries, eclass, '
+                      'licenses, profiles, metadata with dtd/glsa/news/xml-schema/md5-cache, files above 64 KiB); gen_fast_manifest '
+                      'on single directories and gen_fast_metamanifest on whole repositories; output projected and judged by '
+                      'TraceGen.tla (verifies, exact cover with BLAKE2B+SHA512, update changes nothing semantically, after 0-5 edits '
+                      'update restores a verifying tree).')
+
+
+CHECKS = {'C20': c20, 'C19': c19, 'C17': c17, 'C06': c06, 'C16': c16, 'C15': c15, 'C14': c14, 'C05': c05, 'C11': c11, 'C03': c03, 'C10': c10, 'C12': c12, 'C13': c13, 'C01': c01, 'C02': c02, 'C04': c04, 'C07': c07, 'C08': c08, 'C09': c09}
